@@ -136,6 +136,7 @@ type FuncContract struct {
 	Flags    map[string]bool // overflow, nilcheck, assumed, pure, inline, noframe
 	Def      CExpr           // for pure functions: result == Def
 	Refines  []string
+	Cases    []Clause // case split: the function is verified once per case, with the case as an extra precondition
 	File     string
 	Line     int
 }
@@ -314,7 +315,7 @@ var clauseKW = map[string]bool{
 	"requires": true, "ensures": true, "assigns": true, "loop": true, "invariant": true, "decreases": true,
 	"func": true, "pred": true, "ghost": true, "spec": true, "lemma": true, "iface": true, "field": true,
 	"guarded_by": true, "axiom": true, "trusted": true, "flags": true, "refines": true, "def": true,
-	"modifies": true, "assert": true, "assume": true, "at": true, "package": true,
+	"modifies": true, "assert": true, "assume": true, "at": true, "package": true, "split": true,
 }
 
 func (p *parser) peek() tok { return p.toks[p.p] }
@@ -472,7 +473,7 @@ func (p *parser) parseDecl(cs *ContractSet) error {
 		if err != nil {
 			return err
 		}
-		cs.Axioms = append(cs.Axioms, AxiomDecl{Pkg: p.pkg, Name: name, Expr: e, Text: strings.TrimSpace(p.src[start:p.peek().pos])})
+		cs.Axioms = append(cs.Axioms, AxiomDecl{Pkg: p.pkg, Name: name, Expr: e, Text: strings.Join(strings.Fields(stripComments(p.src[start:p.peek().pos])), " ")})
 		return nil
 	case "ghost":
 		kind, err := p.ident()
@@ -815,6 +816,13 @@ func (p *parser) parseFuncClauses(fc *FuncContract) error {
 					p.next()
 				}
 			}
+		case "split":
+			p.next()
+			cl, err := p.parseClause()
+			if err != nil {
+				return err
+			}
+			fc.Cases = append(fc.Cases, cl)
 		case "refines":
 			p.next()
 			var sb strings.Builder
